@@ -245,6 +245,43 @@ func checkBreadthFirst(r *Run) {
 		return true
 	})
 	if coord == nil {
+		// the wait loop may live in a helper that is handed the completion channel
+		pdecls := FuncDecls(p)
+		ast.Inspect(fd.Body, func(n ast.Node) bool {
+			call, ok := n.(*ast.CallExpr)
+			if !ok || coord != nil {
+				return true
+			}
+			callee := calleeOf(info, call)
+			if callee == nil || callee.Pkg() != p.Types {
+				return true
+			}
+			hd := pdecls[callee.Name()]
+			if hd == nil || hd.Body == nil || hd.Type.Params == nil {
+				return true
+			}
+			var params []types.Object
+			for _, pl := range hd.Type.Params.List {
+				for _, nm := range pl.Names {
+					params = append(params, info.Defs[nm])
+				}
+			}
+			for i, a := range call.Args {
+				if isIdent(a, completionC) && i < len(params) {
+					ast.Inspect(hd.Body, func(m ast.Node) bool {
+						if fs, ok := m.(*ast.ForStmt); ok && coord == nil {
+							if stmtHasCall(fs.Body, func(c *ast.CallExpr) bool { return isReceiveFrom(c, params[i]) }) {
+								coord = fs
+							}
+						}
+						return true
+					})
+				}
+			}
+			return true
+		})
+	}
+	if coord == nil {
 		r.Undecide("C17-R1: coordinator loop not found")
 	} else {
 		okCond := false
@@ -389,7 +426,9 @@ func checkBreadthFirst(r *Run) {
 							return true
 						})
 					}
+					boolHelpers = packageBoolHelpers(p)
 					holds, counter, decided := impliedUnder(r.Fset, info, lits)
+					boolHelpers = nil
 					if !decided {
 						r.Undecide("C17-R2: the path condition of %s in the worker has too many atoms", c.what)
 						return
@@ -479,10 +518,53 @@ func checkPipe(r *Run) {
 	if fd == nil {
 		r.Fatal("channels.BufferedPipe not found")
 	}
-	var goLit *ast.FuncLit
+	// The pipe's code: BufferedPipe itself plus the same-package functions and methods it reaches (the closures of the
+	// original may equally be methods of a small state struct); the goroutine body is the launched literal or the body of
+	// the launched same-package function.
+	pdecls := FuncDecls(p)
+	declOf := func(call *ast.CallExpr) *ast.FuncDecl {
+		fn := calleeOf(info, call)
+		if fn == nil || fn.Pkg() != p.Types {
+			return nil
+		}
+		for _, d := range pdecls {
+			if info.Defs[d.Name] == types.Object(fn.Origin()) {
+				return d
+			}
+		}
+		return nil
+	}
+	helperDecls := []*ast.FuncDecl{}
+	{
+		seen := map[*ast.FuncDecl]bool{fd: true}
+		work := []*ast.FuncDecl{fd}
+		for len(work) > 0 {
+			cur := work[0]
+			work = work[1:]
+			ast.Inspect(cur.Body, func(n ast.Node) bool {
+				if call, ok := n.(*ast.CallExpr); ok {
+					if d := declOf(call); d != nil && d.Body != nil && !seen[d] && d.Name.Name != "Submit" && d.Name.Name != "Receive" {
+						seen[d] = true
+						helperDecls = append(helperDecls, d)
+						work = append(work, d)
+					}
+				}
+				return true
+			})
+		}
+	}
+	type goBody struct {
+		Body *ast.BlockStmt
+		Pos  token.Pos
+	}
+	var goLit *goBody
 	ast.Inspect(fd.Body, func(n ast.Node) bool {
 		if g, ok := n.(*ast.GoStmt); ok {
-			goLit, _ = g.Call.Fun.(*ast.FuncLit)
+			if fl, ok := g.Call.Fun.(*ast.FuncLit); ok {
+				goLit = &goBody{fl.Body, fl.Pos()}
+			} else if d := declOf(g.Call); d != nil && d.Body != nil {
+				goLit = &goBody{d.Body, d.Pos()}
+			}
 		}
 		return true
 	})
@@ -490,9 +572,15 @@ func checkPipe(r *Run) {
 		r.Undecide("C17-R3: pipe goroutine not found")
 		return
 	}
+	inspectPipe := func(f func(n ast.Node) bool) {
+		ast.Inspect(fd.Body, f)
+		for _, d := range helperDecls {
+			ast.Inspect(d.Body, f)
+		}
+	}
 	// deque method usage
 	use := map[string]int{}
-	ast.Inspect(fd.Body, func(n ast.Node) bool {
+	inspectPipe(func(n ast.Node) bool {
 		if call, ok := n.(*ast.CallExpr); ok {
 			if sel, ok := call.Fun.(*ast.SelectorExpr); ok {
 				if tv, ok := info.Types[sel.X]; ok {
@@ -521,9 +609,9 @@ func checkPipe(r *Run) {
 		}
 	}
 	if closed {
-		r.Pass("C17-R3-pipe", "BufferedPipe:close-reader", goLit.Pos(), "defer close(readerC) is the goroutine's first statement")
+		r.Pass("C17-R3-pipe", "BufferedPipe:close-reader", goLit.Pos, "defer close(readerC) is the goroutine's first statement")
 	} else {
-		r.Fail("C17-R3-pipe", "BufferedPipe:close-reader", goLit.Pos(), "the reader channel is not closed by defer on every exit of the pipe goroutine: readers block forever")
+		r.Fail("C17-R3-pipe", "BufferedPipe:close-reader", goLit.Pos, "the reader channel is not closed by defer on every exit of the pipe goroutine: readers block forever")
 	}
 	// select statements
 	var selects []*ast.SelectStmt
@@ -537,7 +625,24 @@ func checkPipe(r *Run) {
 	// send-source: every value sent to the reader is the buffer's head (peeked), unless the send is guarded by an
 	// emptiness test of the buffer; a value that bypasses a non-empty buffer overtakes the buffered ones.
 	{
-		peekFuncs := map[types.Object]bool{} // local closures that return the peeked head (getNext)
+		peekFuncs := map[types.Object]bool{} // local closures or helper methods that return the peeked head (getNext)
+		callsPeek := func(body ast.Node) bool {
+			peeks := false
+			ast.Inspect(body, func(m ast.Node) bool {
+				if call, ok := m.(*ast.CallExpr); ok {
+					if sel, ok := call.Fun.(*ast.SelectorExpr); ok && (sel.Sel.Name == "Front" || sel.Sel.Name == "Back") {
+						peeks = true
+					}
+				}
+				return true
+			})
+			return peeks
+		}
+		for _, d := range helperDecls {
+			if d.Body != goLit.Body && d.Type.Results != nil && len(d.Type.Results.List) == 1 && callsPeek(d.Body) {
+				peekFuncs[info.Defs[d.Name]] = true
+			}
+		}
 		ast.Inspect(fd.Body, func(n ast.Node) bool {
 			spec, ok := n.(*ast.ValueSpec)
 			if !ok {
@@ -574,6 +679,9 @@ func checkPipe(r *Run) {
 					if nt := namedOf(tv.Type); nt != nil && nt.Obj().Name() == "Deque" && (f.Sel.Name == "Front" || f.Sel.Name == "Back") {
 						return true
 					}
+				}
+				if fn := calleeOf(info, call); fn != nil && peekFuncs[fn.Origin()] {
+					return true
 				}
 			case *ast.Ident:
 				return peekFuncs[info.Uses[f]]
@@ -658,7 +766,8 @@ func checkPipe(r *Run) {
 				// next, ok := <-writerC
 				if len(comm.Rhs) == 1 {
 					if u, ok := comm.Rhs[0].(*ast.UnaryExpr); ok && u.Op == token.ARROW {
-						if _, isId := u.X.(*ast.Ident); isId {
+						switch ast.Unparen(u.X).(type) {
+						case *ast.Ident, *ast.SelectorExpr: // a channel variable or field, not a computed (possibly nil) channel
 							recvUncond = true
 						}
 					}
@@ -687,23 +796,30 @@ func checkPipe(r *Run) {
 	}
 	// nil-channel trick: getReaderC returns readerC iff buffer non-empty
 	trick := false
-	ast.Inspect(fd.Body, func(n ast.Node) bool {
-		fl, ok := n.(*ast.FuncLit)
-		if !ok || fl.Type.Results == nil || len(fl.Type.Results.List) != 1 {
-			return true
+	chanSelector := func(ft *ast.FuncType, body *ast.BlockStmt) {
+		if ft.Results == nil || len(ft.Results.List) != 1 || body == nil {
+			return
 		}
-		if _, isChan := fl.Type.Results.List[0].Type.(*ast.ChanType); !isChan {
-			return true
+		if _, isChan := ft.Results.List[0].Type.(*ast.ChanType); !isChan {
+			return
 		}
-		if len(fl.Body.List) == 2 {
-			if ifs, ok := fl.Body.List[0].(*ast.IfStmt); ok {
+		if len(body.List) == 2 {
+			if ifs, ok := body.List[0].(*ast.IfStmt); ok {
 				c := strings.ReplaceAll(exprString(r.Fset, ifs.Cond), " ", "")
 				if strings.HasSuffix(c, ".Len()>0") || strings.HasSuffix(c, ".Len()!=0") {
-					if rs, ok := fl.Body.List[1].(*ast.ReturnStmt); ok && len(rs.Results) == 1 && isNilIdent(info, rs.Results[0]) {
+					if rs, ok := body.List[1].(*ast.ReturnStmt); ok && len(rs.Results) == 1 && isNilIdent(info, rs.Results[0]) {
 						trick = true
 					}
 				}
 			}
+		}
+	}
+	for _, d := range helperDecls {
+		chanSelector(d.Type, d.Body)
+	}
+	ast.Inspect(fd.Body, func(n ast.Node) bool {
+		if fl, ok := n.(*ast.FuncLit); ok {
+			chanSelector(fl.Type, fl.Body)
 		}
 		return true
 	})
